@@ -871,6 +871,50 @@ fn rec_case(id: u32, b: &[u8]) -> String {
                 }
             }
         }
+        // VALUE direction for the retained ingress envelope: the input is a sequence of 177-byte causal-parent
+        // records (tag 1/2 + CausalTickReceiptRef) in arbitrary order; the envelope is built through the public
+        // constructor, must encode to bytes the decoder accepts and maps back to the same value, and the bytes
+        // must not depend on the order in which the parents were supplied
+        22 => {
+            if b.len() % 177 != 0 {
+                return "rec err oracle=ok".to_string();
+            }
+            let mut parents = Vec::new();
+            for rec in b.chunks(177) {
+                let mut raw = [0u8; warp_core::CAUSAL_TICK_RECEIPT_REF_LEN];
+                raw.copy_from_slice(&rec[1..]);
+                let receipt_ref = warp_core::CausalTickReceiptRef::from_canonical_bytes(raw);
+                parents.push(match rec[0] {
+                    1 => warp_core::IngressCausalParent::TickReceipt { receipt_ref },
+                    2 => warp_core::IngressCausalParent::ContractInverseTarget { receipt_ref },
+                    _ => return "rec err oracle=ok".to_string(),
+                });
+            }
+            let target = warp_core::IngressTarget::DefaultWriter { worldline_id: warp_core::WorldlineId::from_bytes([7; 32]) };
+            let kind = warp_core::make_intent_kind("c12");
+            let build = |ps: Vec<warp_core::IngressCausalParent>| {
+                std::panic::catch_unwind(|| warp_core::IngressEnvelope::local_intent_with_causal_parents(target.clone(), kind, vec![1, 2, 3], ps)).ok()
+            };
+            let Some(e) = build(parents.clone()) else { return "rec err oracle=ok".to_string() };
+            let enc = e.to_retained_bytes_v2();
+            let mut oracle: Vec<String> = Vec::new();
+            match warp_core::IngressEnvelope::from_retained_bytes(&enc) {
+                Ok(e2) => {
+                    if e2 != e || e2.to_retained_bytes_v2() != enc {
+                        oracle.push("rec-roundtrip:IngressEnvelopeValue".into());
+                    }
+                }
+                Err(_) => oracle.push("rec-encoder-output-rejected:IngressEnvelopeValue".into()),
+            }
+            let mut rev = parents.clone();
+            rev.reverse();
+            if let Some(e3) = build(rev) {
+                if e3.to_retained_bytes_v2() != enc || e3.ingress_id() != e.ingress_id() {
+                    oracle.push("rec-bytes-depend-on-parent-order:IngressEnvelopeValue".into());
+                }
+            }
+            format!("rec ok reenc=same oracle={}", fin(&oracle))
+        }
         _ => "rec unknown".to_string(),
     }
 }
